@@ -19,6 +19,7 @@ fn classify(values: &[V], obs: &mut Obs) {
     let mut ecma_odd = false;
     let mut bool_gt1 = false;
     let mut nested = false;
+    let mut wide = false;
     for v in values {
         ra::walk(v, &mut |n| match n {
             V::Obj(p) => {
@@ -39,6 +40,12 @@ fn classify(values: &[V], obs: &mut Obs) {
                     nested = true;
                 }
             }
+            V::ArrRep(_, n) | V::ObjRep(_, n) => {
+                container = true;
+                if *n >= 1024 {
+                    wide = true;
+                }
+            }
             V::Bool(b) => {
                 if *b > 1 {
                     bool_gt1 = true;
@@ -49,6 +56,7 @@ fn classify(values: &[V], obs: &mut Obs) {
     }
     obs.class_if(container, "container");
     obs.class_if(nested, "nested");
+    obs.class_if(wide, "container-with-1024-or-more-children");
     obs.class_if(ecma_odd, "ecma-count-differs-from-size");
     obs.class_if(bool_gt1, "boolean-byte-above-1");
     obs.nontrivial_if(container || ecma_odd || bool_gt1);
@@ -124,18 +132,9 @@ fn eval_decoder(case: &Case) -> Verdict {
     Verdict::Pass(obs)
 }
 
-/// strings come back from the strict decoder as literals
+/// strings come back from the strict decoder as literals, compact forms expanded
 fn normalise(vs: &[V]) -> Vec<V> {
-    fn n(v: &V) -> V {
-        match v {
-            V::Str(s) => V::Str(ra::S::lit(s.build())),
-            V::Obj(p) => V::Obj(p.iter().map(|(k, v)| (ra::S::lit(k.build()), n(v))).collect()),
-            V::Ecma(c, p) => V::Ecma(*c, p.iter().map(|(k, v)| (ra::S::lit(k.build()), n(v))).collect()),
-            V::Arr(a) => V::Arr(a.iter().map(n).collect()),
-            other => other.clone(),
-        }
-    }
-    vs.iter().map(n).collect()
+    vs.iter().map(ra::expand).collect()
 }
 
 #[derive(Clone, Debug, Serialize, Deserialize)]
